@@ -685,21 +685,22 @@ class RRegression(base.MergeableMetric):
     y = np.asarray(y)
 
     self.num_samples += len(y)
-    self.sum_x += np.sum(x, axis=0)
+    # Not in place: an integer array cannot take a float update in place.
+    self.sum_x = self.sum_x + np.sum(x, axis=0)
     self.sum_y += np.sum(y)
-    self.sum_xx += np.sum(x**2, axis=0)
+    self.sum_xx = self.sum_xx + np.sum(x**2, axis=0)
     self.sum_yy += np.sum(y**2)
-    self.sum_xy += np.sum(x * (y if x.ndim == 1 else y[:, np.newaxis]), axis=0)
+    self.sum_xy = self.sum_xy + np.sum(x * (y if x.ndim == 1 else y[:, np.newaxis]), axis=0)
 
     return self
 
   def merge(self, other: 'RRegression') -> 'RRegression':
     self.num_samples += other.num_samples
-    self.sum_x += other.sum_x
+    self.sum_x = self.sum_x + other.sum_x
     self.sum_y += other.sum_y
-    self.sum_xx += other.sum_xx
+    self.sum_xx = self.sum_xx + other.sum_xx
     self.sum_yy += other.sum_yy
-    self.sum_xy += other.sum_xy
+    self.sum_xy = self.sum_xy + other.sum_xy
 
     return self
 
